@@ -15,7 +15,7 @@ from vsim.world import corpus
 ID = "C06"
 LEVEL = "exploration"
 RULE = (
-    "one run = 3-5 inputs of one dialect (dialect fixtures <= 1.5 kB from /repo/test/fixtures/dialects when readable, "
+    "one run = 3-5 inputs of one dialect, partly siblings (same base, different mutation) (dialect fixtures <= 1.5 kB from /repo/test/fixtures/dialects when readable, alone or two concatenated, "
     "a built-in corpus, small Jinja files with loops/ifs, and seeded token-level mutations of those: delete / "
     "duplicate / swap a token, truncate, stray bracket / keyword / quote) parsed inside ONE long-lived node in a "
     "drawn order with repeats, interleaved with parses and lint+fix runs of other dialects, each parse under a drawn "
@@ -105,7 +105,14 @@ def gen_inputs(rng: Rng) -> tuple[list[dict], list[dict]]:
     for i in range(n):
         r = rng.random()
         templater = "raw"
-        if r < 0.15:
+        family = None
+        if inputs and rng.chance(0.4):
+            # a sibling of an earlier input: same base text, another mutation. Siblings
+            # share most tokens at the same positions (what cache keys are made of).
+            base = rng.choice(inputs)
+            text, d, templater, src = base["base"], base["dialect"], base["templater"], base["src"]
+            family = base["src"]
+        elif r < 0.15:
             text = rng.choice(JINJA)
             templater = "jinja"
             src = "jinja"
@@ -120,10 +127,19 @@ def gen_inputs(rng: Rng) -> tuple[list[dict], list[dict]]:
                 text = f.read()
             src = os.path.relpath(p, FIX)
             d = dialect
+            if rng.chance(0.3):
+                # two fixtures in one file: statement kinds that never met in a fixture
+                p2 = rng.choice(fixtures(dialect))
+                with open(p2, encoding="utf-8", errors="replace") as f:
+                    t2 = f.read()
+                sep = "" if text.rstrip().endswith(";") else ";"
+                text = (text.rstrip() + sep + "\n" + t2) if rng.chance(0.5) else (t2.rstrip() + (";" if not t2.rstrip().endswith(";") else "") + "\n" + text)
+                src += "+" + os.path.relpath(p2, FIX)
+        base_text = text
         mut = "none"
-        if rng.chance(0.45):
+        if rng.chance(0.45) or family:
             text, mut = mutate(rng, text)
-        inputs.append({"text": text, "dialect": d, "templater": templater, "src": src, "mut": mut})
+        inputs.append({"text": text, "base": base_text, "dialect": d, "templater": templater, "src": src, "mut": mut})
     # fillers from other dialects (history)
     fillers = []
     others = [d for d in avail if d != dialect] or ["ansi"]
@@ -293,7 +309,7 @@ def run_one(ctx: Any, seed: int, tier: str, replay: Optional[dict] = None) -> di
             prefix.append("parse:%d:%s" % (i, bkey))
             parsed_before += 1
         samples.append({
-            "inputs": [{k: (v if k != "text" else v[:200]) for k, v in inp.items()} for inp in inputs],
+            "inputs": [{k: (v if k != "text" else v[:200]) for k, v in inp.items() if k != "base"} for inp in inputs],
             "fillers": [f["dialect"] for f in fillers],
             "history": history,
             "hashseeds": [hs_h, hs_f],
